@@ -11,6 +11,8 @@ from ..harness import Sub, Violation
 from ..refs import gemini_ref as R
 from ..refs import kauri_ref
 
+THOROUGH_SCALE = 3  # thorough budgets below are multiplied by this (about ten minutes on 16 processes)
+
 RULE = ("all 18 estimators; hyper-parameters drawn inside each estimator's own accepted domain (registry names / "
         "GEMINI instances / None, solvers, batch sizes 1..n+2 and None, OvA/OvO, every named kernel / metric incl. "
         "callables and precomputed matrices passed as y, parameter dicts, group structures, n_cuts, temperature, masks, "
